@@ -146,6 +146,46 @@ fn main() {
             Ok(())
         });
     }
+    case!("a copy polled on another thread times out like the original", {
+        let t = Duration::from_millis(120);
+        let mut s = PollingParameterNumberMessageScanner::new(t);
+        sel(&mut s);
+        s.feed(&control_change(2, 6, 77));
+        let mut copy = s;
+        let fed = Instant::now();
+        // the worker thread is started first, sleeps past the deadline, then polls its copy
+        let h = std::thread::spawn(move || {
+            std::thread::sleep(Duration::from_millis(300));
+            (copy.poll(channel(2)), copy)
+        });
+        std::thread::sleep(Duration::from_millis(300));
+        let here = s.poll(channel(2));
+        let (there, copy_after) = h.join().map_err(|_| "worker thread panicked".to_string())?;
+        if fed.elapsed() < t { return Err("SLOW machine (clock went backwards?)".into()); }
+        if here != Some(seven(77)) { return Err(format!("original reported {:?}", here)); }
+        if there != here { return Err(format!("the copy polled on another thread reported {:?}, the original {:?}", there, here)); }
+        if copy_after != s { return Err("copy and original differ after the same history".into()); }
+        Ok(())
+    });
+    case!("a scanner created on another thread behaves the same", {
+        let t = Duration::from_millis(120);
+        let mut s = std::thread::spawn(move || {
+            let mut s = PollingParameterNumberMessageScanner::new(t);
+            s.feed(&control_change(2, 99, 3));
+            s.feed(&control_change(2, 98, 37));
+            s.feed(&control_change(2, 6, 78));
+            s
+        })
+        .join()
+        .map_err(|_| "worker thread panicked".to_string())?;
+        let t0 = Instant::now();
+        let early = s.poll(channel(2));
+        if t0.elapsed() > Duration::from_millis(80) { return Err("SLOW machine".into()); }
+        if early.is_some() { return Err("early poll (scanner moved between threads) reported".into()); }
+        std::thread::sleep(Duration::from_millis(250));
+        if s.poll(channel(2)) != Some(seven(78)) { return Err("late poll (scanner moved between threads) did not report".into()); }
+        Ok(())
+    });
     case!("default(): zero timeout", {
         let mut s = PollingParameterNumberMessageScanner::default();
         sel(&mut s);
